@@ -2,6 +2,8 @@
 #[cfg_attr(doc_cfg, doc(cfg(feature = "serde")))]
 mod impl_serde;
 mod iter;
+#[cfg(brood_verif)]
+mod verif;
 
 pub use iter::Iter;
 
